@@ -156,8 +156,16 @@ def check_case(case, ctx):
     dec, logits = eng.run_ocr(img)
     ctx.executed()
     if logits.shape != (len(paths), T, C) or np.abs(logits - S.transpose(0, 2, 1)).max() > 1e-3:
-        from mc.core import HarnessError
-        raise HarnessError('stub network does not reproduce the enumerated tensor')
+        # is it the stub (harness) or the engine?  ask the network itself, the way run_ocr feeds it
+        with torch.no_grad():
+            direct = eng.model(torch.from_numpy(img).float().div(255.0).permute(0, 3, 1, 2)).numpy()
+        if direct.shape != S.shape or np.abs(direct - S).max() > 1e-3:
+            from mc.core import HarnessError
+            raise HarnessError('stub network does not reproduce the enumerated tensor')
+        ctx.violation('engine-and-standalone-agree', f'{K}/engine.run_ocr/returned-logits-are-not-the-network-outputs',
+                      f'PytorchEngineLineOCR.run_ocr, batch of {len(paths)} lines, style {style}: returned logits of shape {logits.shape} differ from '
+                      f'the network output (shape {S.transpose(0, 2, 1).shape}) it decoded')
+        return
     bad = first_bad(list(dec))
     if bad:
         ctx.violation('engine-and-standalone-agree', f'{K}/engine.run_ocr/{"count" if "outputs for" in bad else "text"}',
